@@ -366,7 +366,7 @@ func (ex *Exec) applyContract(st *State, i *ssa.Call, f *ssa.Function, fc *FuncC
 		if ex.relMode {
 			// relational proofs: a callee under contract is a deterministic function of its arguments
 			if so := sortOf(rs.At(j).Type()); so != nil {
-				if fa, ok := flattenArgs(ex, st, args); ok {
+				if fa, ok := flattenArgs(ex, st, args, f, fc); ok {
 					rv = App("det."+f.Name()+"."+name, so, fa...)
 				}
 			}
@@ -497,9 +497,13 @@ func (ex *Exec) clauseActive(c *Clause) bool {
 
 // flattenArgs: scalar arguments and (array, offset, length) of input slices; ok=false when an
 // argument is something else (then no determinism is assumed for the call).
-func flattenArgs(ex *Exec, st *State, args []Value) ([]*Term, bool) {
+func flattenArgs(ex *Exec, st *State, args []Value, f *ssa.Function, fc *FuncContract) ([]*Term, bool) {
 	var out []*Term
-	for _, a := range args {
+	for k, a := range args {
+		// scratch parameters of the callee do not influence its results (its own relational proof)
+		if fc != nil && k < len(f.Params) && fc.Scratch[f.Params[k].Name()] {
+			continue
+		}
 		switch v := a.(type) {
 		case *Term:
 			out = append(out, v)
